@@ -1,84 +1,69 @@
 package c96
 
 import (
+	"encoding/binary"
 	"fmt"
-	"io"
 	"net"
-	"net/http"
-	"net/url"
-	"sync"
-	"sync/atomic"
 	"testing"
+	"time"
 
-	"golang.org/x/net/http2"
 	"verif/ev"
+	"verif/rig/codec"
 	"verif/rig/mesh"
 )
 
 func TestMain(m *testing.M) { mesh.Boot(); mesh.SpreadPorts(); ev.Main(m) }
 
-type rec struct {
-	net.Conn
-	mu  sync.Mutex
-	buf []byte
-	errs []string
-}
-
-func (r *rec) Read(p []byte) (int, error) {
-	n, err := r.Conn.Read(p)
-	r.mu.Lock()
-	r.buf = append(r.buf, p[:n]...)
-	if err != nil { r.errs = append(r.errs, "read:"+err.Error()) }
-	r.mu.Unlock()
-	return n, err
-}
-func (r *rec) Write(p []byte) (int, error) {
-	n, err := r.Conn.Write(p)
-	if err != nil { r.mu.Lock(); r.errs = append(r.errs, "write:"+err.Error()); r.mu.Unlock() }
-	return n, err
-}
-func (r *rec) Close() error { r.mu.Lock(); r.errs = append(r.errs, "close"); r.mu.Unlock(); return r.Conn.Close() }
-
 func TestExplore(t *testing.T) {
-	bad := 0
-	for i := 0; i < 3000; i++ {
-		var seen int32
-		var mu sync.Mutex
-		var recs []*rec
-		up := mesh.NewRawServer(func(id int, c net.Conn) {
-			r := &rec{Conn: c}
-			mu.Lock(); recs = append(recs, r); mu.Unlock()
-			srv := &http2.Server{}
-			srv.ServeConn(r, &http2.ServeConnOpts{Handler: http.HandlerFunc(func(w http.ResponseWriter, req *http.Request) {
-				atomic.AddInt32(&seen, 1)
-				io.ReadAll(req.Body)
-				w.WriteHeader(201)
-				w.Write([]byte("x"))
-			})})
-		})
-		c, err := mesh.NewCaseBound(mesh.Opts{Down: "Http2", Up: "Http2", Hosts: []string{up.Addr}})
-		if err != nil {
-			t.Fatal(err)
+	up := mesh.NewUpstream("bolt", func(r *mesh.Req) mesh.Action {
+		id, err := mesh.XFrameID("bolt", r.Frame)
+		toks := mesh.TokensIn(r.Frame)
+		if err != nil || len(toks) == 0 {
+			fmt.Printf("   upstream: frame without token / id err %v: %x\n", err, r.Frame[:min(len(r.Frame), 40)])
+			return mesh.Action{Kind: "drop"}
 		}
-		tr := mesh.NewH2Transport()
-		req := &http.Request{Method: "GET", URL: &url.URL{Scheme: "http", Host: c.Addr, Opaque: "/a:b"}, Host: "example.com", Header: http.Header{}}
-		resp, err := tr.RoundTrip(req)
-		if err != nil {
-			fmt.Printf("i=%d err %v\n", i, err)
-		} else {
-			b, _ := io.ReadAll(resp.Body)
-			if resp.StatusCode != 201 {
-				bad++
-				fmt.Printf("i=%d -> %d %v body=%d seen=%d\n", i, resp.StatusCode, resp.Header, len(b), atomic.LoadInt32(&seen))
-				mu.Lock()
-				for _, r := range recs { r.mu.Lock(); fmt.Printf("  upstream conn got %d bytes: %q errs=%v\n", len(r.buf), r.buf, r.errs); r.mu.Unlock() }
-				mu.Unlock()
-			}
-		}
-		tr.CloseIdleConnections()
-		c.Close()
-		up.Close()
-		if bad > 1 { break }
+		return mesh.Action{Kind: "reply", Frame: mesh.XBuildResponse("bolt", id, toks[0], nil)}
+	})
+	defer up.Close()
+	cs, err := mesh.NewCaseBound(mesh.Opts{Down: "bolt", Up: "bolt", Hosts: []string{up.Addr}})
+	if err != nil {
+		t.Fatal(err)
 	}
-	fmt.Println("bad", bad)
+	defer cs.Close()
+	probe, _ := mesh.DialX("bolt", cs.Addr)
+	n := 0
+	doProbe := func(tag string) {
+		n++
+		before, _ := probe.Responses()
+		probe.Send(mesh.XBuildRequest("bolt", uint64(1000+n), fmt.Sprintf("p%d", n), nil))
+		fs, closed := probe.WaitN(len(before)+1, 3*time.Second)
+		if len(fs) <= len(before) {
+			fmt.Printf("%s: probe no response closed=%v\n", tag, closed)
+			return
+		}
+		x, _ := mesh.ParseX(fs[len(before)])
+		if x.Status != 0 {
+			fmt.Printf("%s: probe status %d accepted=%d live=%d\n", tag, x.Status, up.Accepted(), up.Live())
+		}
+	}
+	doProbe("baseline")
+	for _, field := range [][2]int{{14, 2}, {16, 2}, {18, 4}} {
+		for _, v := range []uint32{0, 1, 2, 3, 0xffff, 0x7fffffff, 0x80000000, 0xffffffff, 10, 43, 45, 51, 53, 12} {
+			f := mesh.XBuildRequest("bolt", 77, "garbage", codec.Fill(10, 7, true))
+			if field[1] == 2 {
+				binary.BigEndian.PutUint16(f[field[0]:], uint16(v))
+			} else {
+				binary.BigEndian.PutUint32(f[field[0]:], v)
+			}
+			c, _ := net.Dial("tcp", cs.Addr)
+			c.Write(f)
+			time.Sleep(20 * time.Millisecond)
+			doProbe(fmt.Sprintf("field@%d=%#x", field[0], v))
+			c.Close()
+			time.Sleep(5 * time.Millisecond)
+			doProbe(fmt.Sprintf("after close field@%d=%#x", field[0], v))
+		}
+	}
 }
+
+func min(a, b int) int { if a < b { return a }; return b }
